@@ -39,7 +39,21 @@ Definition write (w : wstate) (b : bytes) : wstate :=
   {| w_size := w_size w1 + Z.of_nat (List.length b); w_status := w_status w1;
      u_wrote := u_wrote w1; u_status := u_status w1; u_body := u_body w1 ++ b |}.
 
-Inductive action := AWriteHeader (code : Z) | AWrite (b : bytes).
+(* what the underlying http.ResponseWriter offers for flushing: nothing, http.Flusher, or
+   FlushError() error (every real net/http connection) *)
+Inductive flushkind := FNone | FFlusher | FFlushError.
+
+(* recorder.FlushError (response_writer.go:217-233): both supported branches first record the
+   pending header (WriteHeader(r.status)) and then flush; flushing a writer whose header is out
+   changes nothing observable here.  Unsupported: ErrNotSupported, no effect. *)
+Definition flush (w : wstate) (k : flushkind) : wstate :=
+  match k with
+  | FFlushError => if written w then w else write_header w (w_status w)
+  | FFlusher => if written w then w else write_header w (w_status w)
+  | FNone => w
+  end.
+
+Inductive action := AWriteHeader (code : Z) | AWrite (b : bytes) | AFlush (k : flushkind).
 
 Inductive hres := Returned | Panicked (v : pval).
 
@@ -52,6 +66,7 @@ Fixpoint run_actions (acts : list action) (fin : option pval) (w : wstate) : hre
   | [] => (match fin with Some v => Panicked v | None => Returned end, w)
   | AWriteHeader c :: rest => run_actions rest fin (write_header w c)
   | AWrite b :: rest => run_actions rest fin (write w b)
+  | AFlush k :: rest => run_actions rest fin (flush w k)
   end.
 
 (* ---- errors.Is(e, http.ErrAbortHandler): the sentinel is comparable, no node has an Is method ---- *)
